@@ -150,6 +150,18 @@ def build(need_race=False):
         if old != gen:
             open(gpath, 'w').write(gen)
             b.generated_changed = old is not None
+        # 2b. translate the source text of a few small integer functions (GoLang.v gives the syntax its meaning, GoFnsProofs.v
+        #     proves each equal to the hand-written model)
+        rc, fns = sh([B + '/verifh', 'gen-fns', REPO + '/engine'])
+        if rc != 0:
+            b.ok_go = False
+            b.coq_log = fns
+            return b
+        fpath = COQ + '/GeneratedFns.v'
+        oldf = open(fpath).read() if os.path.exists(fpath) else None
+        if oldf != fns:
+            open(fpath, 'w').write(fns)
+            b.generated_changed = b.generated_changed or oldf is not None
         # 3. Coq: full .vo build, keep going past failures so that the model (and the oracle) survive a broken proof
         if _newer(COQ + '/_CoqProject', COQ + '/Makefile'):
             sh(['coq_makefile', '-f', '_CoqProject', '-o', 'Makefile'], cwd=COQ)
@@ -333,7 +345,7 @@ def write_evidence(pid, tier, coverage, assumptions, wall, violations):
 TRUSTED_BASE = [
     'Coq 8.16.1 kernel incl. its vm_compute machine (finite sweeps); no native_compute',
     'no axioms declared; Print Assumptions of every property theorem is captured on every run',
-    'translator: verifh gen-coq (prints tables/constants of the built engine into Generated.v)',
+    'translators: verifh gen-coq (prints tables/constants of the built engine into Generated.v) and verifh gen-fns (prints the syntax trees of six small functions from the Go source text into GeneratedFns.v; their meaning is GoLang.v)',
     'extraction: ExtrOcamlBasic only (bool, option, unit, list, prod, sumbool, sumor to OCaml types; andb/orb inlined); Z/positive/nat/N/ascii/string/spec_float stay inductive; OCaml 4.13.1 ocamlopt',
     'correspondence harness (Go, tag verif), oracle driver (OCaml), this Python driver: differential testing, not part of any theorem',
     'logic of the engine is modelled by hand (coq/*.v follow engine/*.go function by function); only data is regenerated',
